@@ -321,7 +321,12 @@ func instrsX(fn *ssa.Function, seen map[*ssa.Function]bool) []ssa.Instruction {
 			out = append(out, in)
 			if c, ok := in.(*ssa.Call); ok {
 				if g := expandedCallee(c); g != nil && !seen[g] {
-					out = append(out, instrsX(g, seen)...)
+					// the callee's returns are not returns of fn: they continue after the call
+					for _, gi := range instrsX(g, seen) {
+						if _, isRet := gi.(*ssa.Return); !isRet {
+							out = append(out, gi)
+						}
+					}
 				}
 			}
 		}
